@@ -1,4 +1,5 @@
 import RTA.Lemmas.Cost
+import RTA.Lemmas.CostTrace
 /-! # C14 — job-cost models bound every run of consecutive jobs
 
 Model: `RTA/Model/Cost.lean` (`Cost.ofJobs` = `cost_of_jobs`, `Cost.items n` = first `n`
@@ -59,6 +60,34 @@ theorem extrapolating_never_raises (w : List Nat) (hwf : costCurveWF w) (n : Nat
 any number of times) exactly like a fresh one -/
 theorem cache_transparent (w0 : List Nat) (hwf : costCurveWF w0) (ops : List XCostOp) :
     xcostRun w0 ops = ops.map (xcostPure w0) := xcost_transparent w0 hwf ops
+
+/-- a WCET curve inferred from a trace of job costs bounds the total cost of EVERY run of
+`n` consecutive jobs of that trace, for every `n` (also beyond the recorded prefix) —
+the code after the fix of finding F1 -/
+theorem from_trace_bounds_every_run (tr : List Nat) (maxN : Nat) (hm : 1 ≤ maxN) (s n : Nat)
+    (hrun : s + n ≤ tr.length) :
+    runCost tr s n ≤ costCurveOf (costFromTrace tr maxN) n := costFromTrace_bounds tr maxN hm s n hrun
+
+/-- … and each recorded entry is attained by some run (the curve is the exact maximum) -/
+theorem from_trace_entries_are_maxima (tr : List Nat) (maxN : Nat) :
+    (costFromTrace tr maxN).length = min maxN tr.length ∧
+    ∀ i, i < (costFromTrace tr maxN).length →
+      (∀ s, s + (i + 1) ≤ tr.length → runCost tr s (i + 1) ≤ (costFromTrace tr maxN).getD i 0) ∧
+      (∃ s, s + (i + 1) ≤ tr.length ∧ runCost tr s (i + 1) = (costFromTrace tr maxN).getD i 0) :=
+  costFromTrace_spec tr maxN
+
+/-- extrapolation keeps dominating the trace -/
+theorem extrapolation_dominates_trace (w tr : List Nat) (h3 : 3 ≤ w.length) (hb : BoundsRuns w tr)
+    (k s n : Nat) (hrun : s + n ≤ tr.length) :
+    runCost tr s n ≤ costCurveOf (costIterExt w k) n := by
+  have hb' := costIterExt_boundsRuns w tr h3 hb k
+  have hne : costIterExt w k ≠ [] := by
+    intro h
+    have hl := CostLemmas.costIterExt_length w k
+    rw [h] at hl
+    simp at hl
+    omega
+  exact costCurveOf_boundsRuns _ tr hne hb' s n hrun
 
 example : (Cost.xcurve [5, 6, 7]).WF := by decide
 
